@@ -39,6 +39,10 @@ func (s CacheStatus) ApplyTo(header http.Header) {
 	header.Set(CacheStatusHeader, s.Value)
 	if s.Legacy != "" {
 		header.Set(FromCacheHeader, s.Legacy)
+	} else {
+		// The field is this cache's statement about this exchange: one received
+		// from upstream (an origin behind a cache of the same kind) is not passed on.
+		header.Del(FromCacheHeader)
 	}
 }
 
